@@ -1174,6 +1174,9 @@ func (a *AMF) sendSetupRequest(ue *ueCtx, pti byte) {
 	sm := []byte{0x2e, byte(ue.psi), pti, 0xc2, 0x11, byte(a.Ch.QosRulesLen >> 8), byte(a.Ch.QosRulesLen)}
 	q := make([]byte, a.Ch.QosRulesLen)
 	r.Read(q)
+	if len(q) >= 7 && r.Intn(3) == 0 { // content that looks like a PDU address element is still content
+		copy(q[r.Intn(len(q)-6):], []byte{0x29, 0x05, 0x01, 0xde, 0xad, 0xbe, 0xef})
+	}
 	sm = append(sm, q...)
 	sm = append(sm, 0x06, 0x06, 0x00, 0x64, 0x06, 0x00, 0x64)
 	if a.Ch.AcceptOptMask&1 != 0 {
@@ -1210,6 +1213,9 @@ func (a *AMF) sendSetupRequest(ue *ueCtx, pti byte) {
 			v.PDUSessionAggregateMaximumBitRate = &ngapType.PDUSessionAggregateMaximumBitRate{}
 			v.PDUSessionAggregateMaximumBitRate.PDUSessionAggregateMaximumBitRateDL.Value = 4000000000000
 			v.PDUSessionAggregateMaximumBitRate.PDUSessionAggregateMaximumBitRateUL.Value = int64(r.Intn(1 << 30))
+			if r.Intn(3) == 0 { // octets that imitate the header of the tunnel IE that follows (00 8b 00)
+				v.PDUSessionAggregateMaximumBitRate.PDUSessionAggregateMaximumBitRateUL.Value = []int64{0x8b, 0x8b00, 0x01008b00, 0x008b000a}[r.Intn(4)]
+			}
 		})
 	}
 	addT(139, func(v *ngapType.PDUSessionResourceSetupRequestTransferIEsValue) {
